@@ -303,6 +303,43 @@ def run(ctx):
                 A, graphs = run_case(ctx, c, X, idx, dist, index_obj, thr, cache)
                 ctx.tag((n, k, cols, n, force, "tiny"), tags_of(c) + ["n_le_n_neighbors"])
                 ctx.count("n=%d" % n)
+    # estimator histories (scikit-learn protocol): tables handed over through set_params after construction, and one estimator
+    # refitted with another n_neighbors that the supplied columns still cover -- every fit must read precomputed_knn afresh
+    for n, k1, k2, cols in ((30, 4, 7, 10), (40, 5, 3, 8)):
+        X, idx, dist = make_data(rng, npr, n, cols)
+        for warp in (False, True):
+            td = (dist[:, :cols] ** 2 if warp else dist[:, :cols]).astype(np.float32)
+            tabs = (idx[:, :cols].copy(), td.copy())
+            for force in (False, True):
+                desc = dict(n=n, k=k1, k_refit=k2, cols=cols, force=force, warp=warp, X=X, history="set_params / refit")
+                def used(m, kk):
+                    g = m.graph_.tocsr().copy(); g.sum_duplicates(); g.sort_indices()
+                    return gdiff(g, direct_graph(X, tabs, kk))[0]
+                try:
+                    with warnings.catch_warnings(record=True) as wl:
+                        warnings.simplefilter("always")
+                        est = umap.UMAP(n_neighbors=k1, force_approximation_algorithm=force, n_epochs=0, init="random", random_state=7)
+                        est.set_params(precomputed_knn=(tabs[0].copy(), tabs[1].copy()))
+                        est.fit(X)
+                        d_a = used(est, k1)
+                        est2 = umap.UMAP(n_neighbors=k1, precomputed_knn=(tabs[0].copy(), tabs[1].copy()), force_approximation_algorithm=force,
+                                         n_epochs=0, init="random", random_state=7).fit(X)
+                        d_b1 = used(est2, k1)
+                        est2.set_params(n_neighbors=k2)
+                        est2.fit(X)
+                        d_b2 = used(est2, k2)
+                    ws = [classify_warning(str(w.message)) for w in wl]
+                except Exception as e:
+                    ctx.fail("UMAP.fit:raises", "%s: %s (set_params / refit history)" % (type(e).__name__, e), desc); continue
+                ctx.evaluations += 3
+                ctx.tag(("history", n, k1, k2, cols, force, warp), ["set_params_after_construction", "refit_other_n_neighbors"] + (["non_exact_tables"] if warp else []))
+                if d_a > ATOL:
+                    ctx.fail("UMAP.fit.graph_:tables_not_used:set_params", "tables given through set_params(precomputed_knn=...) are not used: graph differs by %g from the graph of their first %d columns" % (d_a, k1), desc)
+                if d_b1 > ATOL or d_b2 > ATOL:
+                    ctx.fail("UMAP.fit.graph_:tables_not_used:refit", "refit with n_neighbors=%d (tables have %d columns): graph differs by %g from the graph of the first %d columns (first fit: %g)"
+                             % (k2, cols, d_b2, k2, d_b1), desc)
+                if W_FEW in ws or W_ROWS in ws:
+                    ctx.fail("UMAP.fit:usable_tables_ignored_with_warning", "a history of fits with usable tables raised the 'will be ignored' warning", desc)
     # no tables at all
     for n, k, force in ((12, 3, False), (30, 5, True), (60, 8, False)):
         X, idx, dist = make_data(rng, npr, n, 8)
